@@ -25,7 +25,7 @@ UNIT = {
                   ('cache:', 'stream_cache:', 'changes:', 'refs:', 'decoder:', 'options:', 'backend:', 'start_offset:', 'log:')]},
 
   'Storage::resolve_ref': {'kind': 'fn', 'file': FILE, 'container': IMPL, 'name': 'resolve_ref',
-     'props': ['C02', 'C09', 'C17', 'C18', 'C01'], 'ret': 'res',
+     'props': ['C02', 'C09', 'C17', 'C18', 'C01', 'C11'], 'ret': 'res',
      # the content of a backend is addressable: Backend::len() returns its length as a usize (every Backend)
      'requires': ['self.backend.bytes().len() <= usize::MAX'],
      'ensures': [
@@ -49,11 +49,12 @@ UNIT = {
      'rewrites': [
         {'rule': 'R1', 'regex': r'\A\{', 'replace': '{\n        proof { reveal_with_fuel(root, 3); }'},   # at the top of the body
         {'rule': 'R3', 'find': 'PdfError::PrimitiveNotAllowed { found: ParseFlags::STREAM, allowed: flags }', 'replace': 'PdfError::PrimitiveNotAllowed'},
-        {'rule': 'R7', 'find': '''let obj_stream = resolve.get::<ObjectStream>(Ref::from_id(stream_id))?;
-
-                    let (data, range) = t!(obj_stream.get_object_slice(index, resolve));
-                    let slice = data.get(range.clone()).ok_or_else(|| other!("invalid range {:?}, but only have {} bytes", range, data.len()))?;
-                    parse(slice, resolve, flags)''', 'replace': 'hoist_objstm_member(resolve, stream_id, index, flags)'},
+        # R7: the four statements of the object-stream arm; the flags expression handed to `parse` stays verbatim
+        {'rule': 'R7', 'regex': r'let obj_stream = resolve\.get::<ObjectStream>\(Ref::from_id\(stream_id\)\)\?;\s*'
+                                r'let \(data, range\) = t!\(obj_stream\.get_object_slice\(index, resolve\)\);\s*'
+                                r'let slice = data\.get\(range\.clone\(\)\)\.ok_or_else\(\|\| other!\("invalid range \{:\?\}, but only have \{\} bytes", range, data\.len\(\)\)\)\?;\s*'
+                                r'parse\(slice, resolve, ([^;{}]*?)\)(?=\s*\})',
+         'replace': r'hoist_objstm_member(resolve, stream_id, index, \1)'},
         {'rule': 'R4', 'find': 'unimplemented!()', 'replace': 'bail!("Unimplemented")'},
      ]},
  },
